@@ -312,6 +312,9 @@ func runC10(r *core.Run) {
 	})
 	r.Exhaustive(true)
 	webCutRounds(r, r.N(2, 10))
+	if !r.Quick() {
+		straceFaults(r, 6)
+	}
 }
 
 func replayC10(r *core.Run, kind string, raw json.RawMessage) {
